@@ -34,9 +34,12 @@ def plan(tier):
     return {'shards': 4 if tier == 'quick' else 16, 'exhaustive': True}
 
 
+NONE_AT = [None]  # position whose example is None instead of its index (translated back before judging)
+
+
 def build(stage, n, buf, sd, extra):
     import lazy_dataset
-    base = lazy_dataset.new(list(range(n)))
+    base = lazy_dataset.new([None if i == NONE_AT[0] else i for i in range(n)])
     rng = np.random.RandomState(sd)
     if stage == 'shuffle_once':
         return base.shuffle(False, rng=rng), n
@@ -81,13 +84,14 @@ def unpair(kv):
     return kv[1]
 
 
-def run_word(ds, word, n_iters):
+def run_word(ds, word, n_iters, idle_at=None):
     """Drive n_iters iterators over the same object with an explicit next() order. Returns outputs, overlap info."""
     if isinstance(ds, list):
         its = [iter(ds[i % len(ds)]) for i in range(n_iters)]  # distinct objects (an original and its copies)
     else:
         its = [iter(ds) for _ in range(n_iters)]
     outs = [[] for _ in range(n_iters)]
+    idle = []
     started = [None] * n_iters
     finished = [None] * n_iters
     clock = 0
@@ -101,6 +105,9 @@ def run_word(ds, word, n_iters):
         if finished[w] is not None:
             continue
         clock += 1
+        if idle_at is not None and clock == idle_at + 1:
+            # an iterator that is only CREATED (iter(ds)) and never advanced: creating it starts nothing
+            idle.append(iter(ds[0] if isinstance(ds, list) else ds))
         if started[w] is None:
             started[w] = clock
         try:
@@ -109,6 +116,9 @@ def run_word(ds, word, n_iters):
             finished[w] = clock
         if clock > 400000:
             raise Violation('iteration-does-not-end', 'more than 400000 next() calls')
+    for it in idle:
+        if hasattr(it, 'close'):
+            it.close()
     # X is a victim if another iterator started strictly inside X's lifetime
     victim = [any(j != i and started[i] < started[j] < finished[i] for j in range(n_iters)) for i in range(n_iters)]
     alternations = sum(1 for a, b in zip(word, word[1:]) if a != b)
@@ -227,7 +237,12 @@ def check(case):
             return 0
         raise Violation('oversampling-accepted|choice', f'{case}\nrandom_choice({extra}, replace=False) of {n} '
                                                         f'examples returned {got}')
-    ds, out_len = build(stage, n, buf, sd, extra)
+    NONE_AT[0] = case.get('none_at') if stage in ('shuffle_once', 'reshuffle', 'local', 'local_copy', 'reshuffle_catch',
+                                                  'reshuffle_apply', 'reshuffle_copy', 'tile_shuffle') else None
+    try:
+        ds, out_len = build(stage, n, buf, sd, extra)
+    finally:
+        none_at, NONE_AT[0] = NONE_AT[0], None
     desc = f'{case}'
     if case.get('compose'):
         comp = case['compose']
@@ -244,7 +259,9 @@ def check(case):
         victim = [stage in BARE_RESHUFFLE, False]
         alternations = 2
     else:
-        outs, victim, alternations = run_word(ds, word, k)
+        outs, victim, alternations = run_word(ds, word, k, case.get('idle_at'))
+    if none_at is not None:
+        outs = [[none_at if x is None else x for x in out] for out in outs]  # None stands for its position
     deferred = None
     for i, out in enumerate(outs):
         if stage == 'choice':
@@ -330,6 +347,10 @@ def st_case(draw):
             draw(st.integers(0, 4)) == 0:
         case['compose'] = draw(st.sampled_from(['zip', 'intersperse']))
         return case
+    if n and draw(st.integers(0, 3)) == 0:
+        case['none_at'] = draw(st.integers(0, n - 1))  # one example is None (a legitimate example)
+    if n >= 2 and draw(st.integers(0, 3)) == 0:
+        case['idle_at'] = draw(st.integers(1, n))  # after that many next() calls an iterator is created and left alone
     k = draw(st.integers(1, 3))
     case['iters'] = k
     case['word'] = draw(st.lists(st.integers(0, k - 1), min_size=0, max_size=3 * (n + 1)))
@@ -375,6 +396,14 @@ def run_shard(tier, idx, nshards, rec, known):
                             if not one(case):
                                 return [out]
     if idx == 0:
+        for stage in ('reshuffle', 'reshuffle_copy', 'reshuffle_items', 'local', 'shuffle_once', 'reshuffle_catch'):
+            for n in (2, 3, 4):
+                for idle_at in range(1, n + 1):
+                    for sd in (0, 1, 2, 3):
+                        case = {'stage': stage, 'n': n, 'buffer': 2, 'seed': sd, 'iters': 1, 'word': [],
+                                'idle_at': idle_at}
+                        if not one(case):
+                            return [out]
         for stage in ('reshuffle', 'shuffle_once', 'local', 'reshuffle_items', 'reshuffle_catch'):
             for n in (300, 33000, 70000):
                 if stage in ('reshuffle_items', 'reshuffle_catch') and n > 33000:
